@@ -30,7 +30,8 @@ COMPONENTS = COMPONENTS_BASE
 ASSUMPTIONS = ["awaitables log their own entry/exit; items are plain integers tagged per scenario"]
 PROBES = ("apply_same_awaitable_twice", "any_iter_awaitable_outer", "any_iter_awaitable_items", "any_iter_async_iterator", "await_each_partial",
           "apply_keywords", "sync_coroutine_function_unchanged", "sync_raises", "sync_callable_object", "sync_sometimes_awaitable",
-          "asked_again_after_the_end", "apply_value_is_a_coroutine_object", "sync_wraps_of_the_other_kind")
+          "asked_again_after_the_end", "apply_value_is_a_coroutine_object", "sync_wraps_of_the_other_kind",
+          "sync_bound_method_after_its_function", "sync_partial_keyword_overridden", "generator_based_coroutine")
 
 
 class Aw:
@@ -65,6 +66,16 @@ def make_awaitable(sim, log, name, n, value, coro, exc=None):
     aw = Aw(sim, log, name, n, value, exc)
     if not coro:
         return aw
+    if coro == 3:
+        # a generator-based coroutine (types.coroutine: what curio / trio style traps are made of): awaitable by
+        # the language's rules, though it has no __await__
+        import types
+
+        @types.coroutine
+        def gen_based():
+            return (yield from aw.__await__())
+
+        return gen_based()
 
     async def as_coro():
         return await aw
@@ -167,7 +178,7 @@ async def run_any_iter(sc, sim, res, tag):
 
 # --------------------------------------------------------------------------- await_each
 def gen_await_each(ch):
-    sc = {"kind": "await_each", "n": ch.draw(7), "susp": [ch.draw(3) for _ in range(3)], "coro": ch.draw(3),
+    sc = {"kind": "await_each", "n": ch.draw(7), "susp": [ch.draw(3) for _ in range(3)], "coro": ch.draw(4),
           "container": ch.draw(2)}
     sc["steps"] = ch.draw(sc["n"] + 2) if ch.chance(3, 4) else sc["n"] + 1 + ch.between(1, 3)
     return sc
@@ -243,7 +254,7 @@ def check_await_each_order(log):
 # --------------------------------------------------------------------------- apply
 def gen_apply(ch):
     return {"kind": "apply", "npos": ch.draw(5), "nkw": ch.draw(4), "susp": [ch.draw(3) for _ in range(3)],
-            "coro": ch.draw(3), "fails": ch.chance(1, 6), "shared": ch.chance(1, 4),
+            "coro": ch.draw(4), "fails": ch.chance(1, 6), "shared": ch.chance(1, 4),
             # keyword names, some of them names the adapter may use for its own parameters
             "names": [ch.draw(8) for _ in range(3)],
             # the function: def | async def | partial(async def) | object whose call returns an awaitable -
@@ -356,7 +367,9 @@ def gen_sync(ch):
     # flavours 7/8: an async generator function (and a partial of one): calling it gives an async generator - the result
     # flavour 9: a plain def carrying functools.wraps of a coroutine function (it runs things itself) - a plain callable
     # flavour 10: an async def carrying functools.wraps of a plain function - a coroutine function
-    return {"kind": "sync", "flavour": ch.draw(11), "fails": ch.chance(1, 3), "susp": ch.draw(3),
+    # flavour 11: a bound method, after sync() was used on the plain function it is a method of
+    # flavours 12 / 13: a partial of a plain / coroutine function whose preset keyword the call overrides
+    return {"kind": "sync", "flavour": ch.draw(14), "fails": ch.chance(1, 3), "susp": ch.draw(3),
             "pattern": [ch.draw(2) for _ in range(ch.between(2, 4))], "fault": ch.draw(len(SYNC_FAULTS))}
 
 
@@ -440,19 +453,30 @@ async def run_sync(sc, sim, res, tag):
     async def coro_wrapping_plain(x, y=1):
         return await coro_fn(x, y)
 
+    class Holder:
+        def meth(self, x, y=1):
+            if self is not holder:
+                log.append(("wrong_self", repr(self)))
+                return ("wrong self",)
+            return plain(x, y)
+
+    holder = Holder()
+    if fl == 11:
+        res["earlier"] = L.sync(Holder.meth)  # the history: the function itself went through sync() before
     f = (plain, coro_fn, functools.partial(coro_fn, y=2), Obj(), ObjPlain(), functools.partial(plain, y=2), None, None, None,
-         plain_wrapping_coro, coro_wrapping_plain)[fl]
+         plain_wrapping_coro, coro_wrapping_plain, holder.meth, functools.partial(plain, y=2),
+         functools.partial(coro_fn, y=2))[fl]
     wrapped = L.sync(f)
     res["same"] = wrapped is f
-    aw = wrapped(tag, **({} if fl in (2, 5) else {"y": 1}))
+    aw = wrapped(tag, **({} if fl in (2, 5) else {"y": 3} if fl in (12, 13) else {"y": 1}))
     res["type_ok"] = hasattr(aw, "__await__")
     try:
         res["got"] = ("ok", await aw)
     except SYNC_FAULTS as err:
         res["got"] = ("raised", err is fault)
-    yv = 2 if fl in (2, 5) else 1
+    yv = 2 if fl in (2, 5) else 3 if fl in (12, 13) else 1
     res["expected"] = ("raised", True) if sc["fails"] else ("ok", ("r", tag, yv))
-    res["expect_same"] = fl in (1, 2, 10)
+    res["expect_same"] = fl in (1, 2, 10, 13)
 
 
 GENS = (gen_any_iter, gen_await_each, gen_apply, gen_sync)
@@ -501,6 +525,8 @@ def execute(st, ctx):
                 out.violate("C19.await_each_not_lazy_or_not_sequential", sig, dict(describe(), why=why))
             if sc["steps"] <= sc["n"] and sc["n"]:
                 out.probes["await_each_partial"] = 1
+            if sc["coro"] == 3 and sc["n"]:
+                out.probes["generator_based_coroutine"] = 1
             if sc["steps"] > sc["n"] + 1:
                 out.probes["asked_again_after_the_end"] = 1
             if sc["n"]:
@@ -543,6 +569,10 @@ def execute(st, ctx):
                 out.probes["sync_callable_object"] = 1
             if sc["flavour"] in (9, 10):
                 out.probes["sync_wraps_of_the_other_kind"] = 1
+            if sc["flavour"] == 11:
+                out.probes["sync_bound_method_after_its_function"] = 1
+            if sc["flavour"] in (12, 13):
+                out.probes["sync_partial_keyword_overridden"] = 1
             if sc["flavour"] == 6 and len(set(sc["pattern"])) == 2:
                 out.probes["sync_sometimes_awaitable"] = 1
             nontrivial = True
